@@ -239,7 +239,7 @@ pub fn run(ctx: &mut Ctx) {
     for (n, ok) in r9::selftest(ctx.shard == 0) {
         ctx.selftest(&n, ok);
     }
-    ctx.require(&["annex_kat", "honest_keys_equal", "tampered_keys_differ", "responder_rejects_offcurve_RA", "initiator_rejects_offcurve_RB", "tamper=RaOther", "tamper=RbOther", "tamper=RaBitflipOnCurve", "tamper=RbNeg", "klen=1", "klen=128", "parties_have_public_master_key_only", "sparse_ephemeral_scalars", "kdf_direct", "ke=H1(id)_doubling_in_Q", "sk_all_zero_retry_path", "crafted_valid_R_A", "id_beyond_2^16_bits", "same_id_both_parties", "many_calls_one_process"]);
+    ctx.require(&["annex_kat", "honest_keys_equal", "tampered_keys_differ", "responder_rejects_offcurve_RA", "initiator_rejects_offcurve_RB", "tamper=RaOther", "tamper=RbOther", "tamper=RaBitflipOnCurve", "tamper=RbNeg", "klen=1", "klen=128", "parties_have_public_master_key_only", "sparse_ephemeral_scalars", "kdf_direct", "ke=H1(id)_doubling_in_Q", "sk_all_zero_retry_path", "crafted_valid_R_A", "id_beyond_2^16_bits", "same_id_both_parties", "many_calls_one_process", "id_length_sweep"]);
     let pr = r9::params();
     let mut paux = ctx.prng("aux");
     if ctx.shard == 0 {
@@ -265,6 +265,23 @@ pub fn run(ctx: &mut Ctx) {
                 responder_with_point(ctx, &ke, b"Alice", b"Bob", klen, &pt, &r_b, "crafted_valid_R_A");
             }
         }
+    }
+    // --- identity lengths 0..=130 for either party (inputs of H1 and of the KDF take every residue modulo the hash block)
+    {
+        let mut pl = ctx.prng("id_sweep");
+        for len in 0..=130u64 {
+            let sub = pl.next();
+            if !ctx.mine(len) {
+                continue;
+            }
+            let mut p = Prng::new(sub, "ls");
+            let ke = rand_scalar(&mut p, &(&pr.n - 1u32));
+            let (ra, rb) = (rand_scalar(&mut p, &(&pr.n - 1u32)), rand_scalar(&mut p, &(&pr.n - 1u32)));
+            let (ida, idb) = if len % 2 == 0 { (p.bytes(len as usize), p.bytes(3)) } else { (p.bytes(5), p.bytes(len as usize)) };
+            ctx.class("id_length_sweep");
+            history(ctx, &ke, &ida, &idb, 16, &ra, &rb, Tamper::None, &mut p);
+        }
+        ctx.exhaustive("identity lengths 0..=130 (alternating parties)", true);
     }
     // --- many calls in one process (call-count dependent faults): the responder step 200 times on one R_A
     if ctx.shard == 0 {
